@@ -130,6 +130,18 @@ CHECKS = {
         note='Pending = API call made before that endpoint delivered on_close. Scenarios use fixed link knobs so each '
              'fault point replays the same execution up to the fault.',
         design='4/C11'),
+    'C12': dict(
+        category='exploration',
+        technique='step-bounded decoder fuzzing; probe-based containment oracle (probe stream + probe requests before/during/after hostile stimuli, reaction filter on the tap, task liveness); fault injection into application code at every handler entry point and callback',
+        text='(a) 200k seeded hostile byte strings per quick run into FrameParser in both framings under a logical step bound. '
+             '(b) a real server / client with a probe stream open receives 1..5 hostile stimuli from a 45-entry catalogue '
+             'while probe requests are issued before, during and after; probes must be answered byte-exactly, the open '
+             'stream must continue, the only reaction allowed is ERROR on the offending stream (0 for connection-level), '
+             'tasks stay alive, on_close is not called. (c) E-mix runs with one interaction whose application code raises '
+             '(14 failure modes) next to bystanders that must satisfy the C01 ledger. (d) routing handler and both Rx '
+             'handler adapters with raising / healthy application code at each of the five entry points. Held-on-explored.',
+        note='Hostile stimuli never use the probe stream ids.',
+        design='4/C12'),
     'C13': dict(
         category='exploration',
         technique='reference-model monitor over exhaustively enumerated allocator histories + wire monitor on real endpoints',
